@@ -306,6 +306,14 @@ recipe('PartialDerivative/affine', [DIFF + 'PartialDerivative'], deriv=True)(
     lambda ctx: odl.PartialDerivative(D3(), axis=0, pad_mode='constant', pad_const=ctx.real('c', nonzero=True)))
 recipe('PartialDerivative/nodes_on_bdry', [DIFF + 'PartialDerivative'], linear=True, deriv=True)(
     lambda ctx: odl.PartialDerivative(Dnb(), axis=0, pad_mode='order1'))
+recipe('Gradient/nodes_on_bdry', [DIFF + 'Gradient'], linear=True, deriv=True)(
+    lambda ctx: odl.Gradient(Dnb(), pad_mode='order1'))
+recipe('Divergence/nodes_on_bdry', [DIFF + 'Divergence'], linear=True, deriv=True)(
+    lambda ctx: odl.Divergence(range=Dnb(), pad_mode='order1'))
+recipe('Laplacian/nodes_on_bdry', [DIFF + 'Laplacian'], linear=True, deriv=True)(
+    lambda ctx: odl.Laplacian(Dnb(), pad_mode='symmetric'))
+recipe('Resizing/nodes_on_bdry', [DISC + 'ResizingOperator'], linear=True, deriv=True)(
+    lambda ctx: odl.ResizingOperator(Dnb(), ran_shp=(5,), pad_mode='order0'))
 recipe('Gradient/forward', [DIFF + 'Gradient'], linear=True, deriv=True)(lambda ctx: odl.Gradient(D23()))
 recipe('Gradient/central/symmetric', [DIFF + 'Gradient'], linear=True, deriv=True)(
     lambda ctx: odl.Gradient(D23(), method='central', pad_mode='symmetric'))
